@@ -118,6 +118,7 @@ type Interp struct {
 	curOp     string
 	sample    string
 	fnStack   []*ssa.Function
+	inYield    bool
 	blobs      map[*SymStr]*blobRec
 	tsGhost    map[*Obj]TimeV
 	drawCursor int
@@ -137,6 +138,7 @@ type RunOpts struct {
 	TrackAccess bool
 	PanicViolation bool
 	NoMerge        bool
+	Stubs          map[string]string // callee -> generic stub ("codec.marshal", "codec.unmarshal", "noop")
 	SplitMax       int // at most this many separators in a string given to strings.Split (0 = unbounded)
 }
 
@@ -499,6 +501,11 @@ func (in *Interp) callSSA(caller *frame, fn *ssa.Function, args []Value, binding
 		in.goPanicf(pos, "nilfunc", "call of nil function")
 	}
 	// intrinsics and stubs first
+	if len(in.opts.Stubs) > 0 {
+		if kind, ok := in.opts.Stubs[fn.String()]; ok {
+			return in.genericStub(kind, fn, args, pos)
+		}
+	}
 	if h, ok := in.eng.intrinsic(fn); ok {
 		return h(in, caller, fn, args, pos)
 	}
@@ -1152,4 +1159,32 @@ func (in *Interp) check(extra *Term) SatResult {
 func (in *Interp) model(extra *Term, syms []*Term) (SatResult, map[string]uint64) {
 	in.w.solver.marks = in.pcMarks
 	return in.w.solver.Model(in.pc, extra, syms)
+}
+
+// genericStub implements the per-check stub kinds.
+func (in *Interp) genericStub(kind string, fn *ssa.Function, args []Value, pos token.Pos) Value {
+	switch kind {
+	case "noop":
+		return in.zeroResults(fn)
+	case "codec.marshal":
+		// func (m *T) marshal() []byte  /  func marshal(m *T) []byte
+		p, ok := args[0].(PtrV)
+		if !ok || p.IsNil() {
+			in.goPanicf(pos, "nilderef", "marshal of nil")
+		}
+		return BytesV{S: in.newBlob(fn.Name(), "", in.load(p, pos), nil)}
+	case "codec.unmarshal":
+		// func unmarshal(b []byte) *T
+		data := in.toStrArg(args[0], pos)
+		rec, found := in.blobOf(data)
+		if !found {
+			in.unsupported("abstract codec: %s applied to bytes that no marshal of this path produced", fn.Name())
+		}
+		et := fn.Signature.Results().At(0).Type().(*types.Pointer).Elem()
+		o := in.newObj(in.deepCopy(rec.msg, map[*Obj]*Obj{}), et, "unmarshal")
+		o.heap = true
+		return PtrV{obj: o}
+	}
+	in.unsupported("unknown stub kind %s", kind)
+	return nil
 }
